@@ -110,7 +110,10 @@ Definition run_case (c : c11case) (fs : list F) : list Z * list F :=
         (* Geometry::save to a .geom file: the Meshes and Interfaces sections *)
         ++ [zn (length (saved_meshes g))] ++ map zn (saved_meshes g)
         ++ [zn (length (saved_ifaces g))]
-        ++ flat_map (fun i => zn (length (snd i)) :: flat_map (fun om => [fst om; zn (snd om)]) (snd i)) (saved_ifaces g),
+        ++ flat_map (fun i => zn (length (snd i)) :: flat_map (fun om => [fst om; zn (snd om)]) (snd i)) (saved_ifaces g)
+        (* number of triangles whose stored normal / area disagree with their (repaired) vertex order: Mesh::update
+           computes them after correct_local_orientation, so there is none *)
+        ++ [0],
         flat_map (fun p => [sigma o g conds (fst p) (snd p); sigma_inv o g conds (fst p) (snd p);
                             indicator o g conds (fst p) (snd p)]) prs
         ++ map (conductivity_jump o g conds) (seq 0 nm) ++ conds )
